@@ -202,6 +202,11 @@ class SqlalchemyRender:
                 if isinstance(arg1, sa.sql.selectable.ColumnClause):
                     raise NotImplementedError(f'Required list argument for: {op}')
 
+            if op == '||':
+                # sqlalchemy ranks concat with the comparisons, SQL engines rank || above + - * /
+                mul = sa.sql.operators.mul
+                arg0, arg1 = arg0.self_group(against=mul), arg1.self_group(against=mul)
+
             method = methods.get(op)
             if method is not None:
                 sa_op = getattr(arg0, method)
